@@ -171,7 +171,7 @@ def run(tier):
                 "here-string, here-document, redirection target, [[ ]] / [ ] operand, for list, declare/export/local, printf -v, functions) x IFS in {unset, empty, ':', 'j', SP NL, '*'} x glob option in %s%s, in a "
                 "directory holding a, ab, .h, 'a b', A and files named after the value" % (2 if tier == "quick" else 3, " (two thirds of the length-2 values thinned in quick)" if tier == "quick" else "", len(vals), len(SPECIAL), len(forms("a")), OPTS,
                                                                                        " (7 of the 42 IFS x option configurations per value in quick, 15 in thorough)"),
-        "values": len(vals), "evaluations_A": evalsA, "evaluations_B": evalsB, "exhaustive": tier != "quick",
+        "values": len(vals), "evaluations_A": evalsA, "evaluations_B": evalsB, "exhaustive": False,
         "samples": [{"value": vals[len(vals) // 3], "form": 'F "$x"', "expected": [[vals[len(vals) // 3]]]}],
     }, assumptions=["bash 5.2.15 is the reference for part A and a cross-check of the harness for part B; a case counts only if bash reproduces the expected result",
                     "values are valid UTF-8 without NUL, injected through the environment", "locale C.UTF-8"])
